@@ -769,3 +769,35 @@ Proof.
   - apply Forall_forall. intros y Hy. apply in_dset_wfh in Hy; auto. rewrite Forall_forall in Wd. destruct Hy as [Hy| ->]; auto.
   - apply NoDup_dset; assumption.
 Qed.
+
+(* ================================================================ minimality of the shown list *)
+Lemma fam_lengths l : (length (fam 4 l) + length (fam 6 l) <= length l)%nat.
+Proof.
+  induction l as [|a l IH]; [apply le_n|]. unfold fam in *. cbn [filter].
+  destruct (Z.eqb_spec (nver a) 4) as [E|_].
+  - rewrite E. change (4 =? 6) with false. cbn [length]. lia.
+  - destruct (nver a =? 6); cbn [length]; lia.
+Qed.
+
+Lemma fam_min ver d l' : valid_ver ver = true -> SetInv d -> Forall wf_net l' ->
+  (forall v x, den l' v x <-> den d v x) -> (length (fam ver (sorted d)) <= length (fam ver l'))%nat.
+Proof.
+  intros V I W D. destruct (C06_shown d I) as (C & Ds). apply canon_nets_iff in C. destruct C as (Wh & S & N).
+  pose proof (fam_canon ver _ Wh S N) as Cv.
+  pose proof (canon_minimal (width ver) (width_nonneg ver) _ (fam_blks ver l') Cv) as M.
+  assert (L: forall L0, length (fam_blks ver L0) = length (fam ver L0)) by (intros; unfold fam_blks; apply map_length).
+  rewrite !L in M. apply M.
+  - intros b Hb. apply fam_blks_inv in Hb. destruct Hb as (n & Hn & <- & ->). apply net_blk_aligned.
+    rewrite Forall_forall in W. apply W, Hn.
+  - intros x. rewrite !covered_fam by (first [assumption|apply wfh_wf; assumption]). rewrite Ds. symmetry. apply D.
+Qed.
+
+(* no list of well-formed networks (host bits or not, any order) with the same addresses is shorter than what the set shows *)
+Theorem C06_shown_minimal d l' : SetInv d -> Forall wf_net l' ->
+  (forall ver x, den l' ver x <-> den d ver x) -> (length (sorted d) <= length l')%nat.
+Proof.
+  intros I W D. destruct (C06_shown d I) as ((_ & E & _) & _).
+  pose proof (f_equal (@length net) E) as L. rewrite app_length in L.
+  pose proof (fam_min 4 d l' eq_refl I W D). pose proof (fam_min 6 d l' eq_refl I W D).
+  pose proof (fam_lengths l'). lia.
+Qed.
